@@ -43,7 +43,7 @@ Definition format_part_pieces (p : part) (f : fmt) (startline : nat) (nd : optio
   let src_text := if f_prefix f then join_nl (orig_lines p) else join_nl (exec_lines p) in
   let want_text := join_nl (want_lines p) in
   let nd' := match nd with Some d => d | None => n_digits_of (startline + part_n_lines p) end in
-  let part_lines0 := splitlines src_text in
+  let part_lines0 := srclines src_text in
   let part_lines1 := if f_linenos f then add_line_numbers part_lines0 (startline + line_offset p) nd' else part_lines0 in
   let n_spaces1 := if f_linenos f then S nd' else O in
   let '(part_lines2, n_spaces2) :=
@@ -51,7 +51,7 @@ Definition format_part_pieces (p : part) (f : fmt) (startline : nat) (nd : optio
     | Some k => (map (fun l => PARTNO_OPEN ++ decimal k ++ PARTNO_CLOSE ++ l) part_lines1, (n_spaces1 + 5)%nat)
     | None => (part_lines1, n_spaces1)
     end in
-  let wl := if f_want f then map (fun l => repeat_char SP n_spaces2 ++ l) (splitlines want_text) else [] in
+  let wl := if f_want f then map (fun l => repeat_char SP n_spaces2 ++ l) (srclines want_text) else [] in
   (part_lines2, wl).
 
 Definition format_part (p : part) (f : fmt) (startline : nat) (nd : option nat) : str :=
@@ -84,7 +84,7 @@ Definition no_star (l : str) : bool := negb (contains IMPORT_STAR l).
    then the want as comments *)
 Definition dump_part (p : part) : str :=
   let ex := filter no_star (exec_lines p) in
-  let body := join_nl (splitlines (join_nl ex)) in
+  let body := join_nl (srclines (join_nl ex)) in
   match want_lines p with
   | [] => body
   | wl => body ++ [NL] ++ WANT_HDR ++ [NL] ++ indent_text HASH_SP (join_nl wl)
